@@ -25,6 +25,11 @@ CLAIMED["C02"] = ("RangeLease", "TLA+ model of the range plugin (map + table + a
    "InRange/Unique/Sticky/LeaseTimeOK/DropsOnlyUnknownWhenFull are invariants/action properties of RangeLease.tla (TLC exhaustive: 3 clients, 2 addresses, restarts, clock); every history of the tier's depth on a 2-address range and seeded long histories on word-boundary ranges are run on the real plugin and validated line by line.", _RANGE_NOTE, "DESIGN.md section 3 C02-C03")
 CLAIMED["C03"] = ("RangeLease", "same model; every prefix of every executed history is a crash point: the sqlite file is copied, a fresh Setup4 runs on the copy, all clients are re-queried, remaining capacity is counted and the rows are read; TLC validates each probe against the monitor",
    "DbRestoresReplied/DbMatchesMemWhenQuiet/DbNoDuplicates/RestartIdempotent/ExpiryOK hold in every state of RangeLease.tla (every state, also between row write and reply, is a crash point); on the real code every quiescent point of every executed history is probed.", _RANGE_NOTE, "DESIGN.md section 3 C02-C03")
+_PFX_NOTE = "trusted: harness/prefix.go (codec round trips, prefix -> block index/base/length), TLC; messages carry a client id and distinct IAIDs; no lease expiry within a run"
+CLAIMED["C08"] = ("PrefixPD", "TLA+ model of the prefix plugin (three matching passes per IA_PD over recorded leases + policy-free allocator) checked by TLC; all bounded message sequences over state-relative hint kinds executed on the real plugin through Plugin.Setup6 (codec both ways, direct and relayed) and validated by TLC trace checking",
+   "DisjointAcrossClients/AllocatorCoversTold/OneAnswerPerIA hold in every state/transition of PrefixPD.tla (TLC exhaustive: 2 clients, 3 blocks, <=2 IA_PDs, <=2 hints, 2-3 messages); ~10^5 message sequences are run on the real plugin and every reply is validated against the monitor.", _PFX_NOTE, "DESIGN.md section 3 C08-C09")
+CLAIMED["C09"] = ("PrefixPD", "same model; RenewAndRepeat / NoGrowthOnRepeat / Remembered as action properties and invariants (TLC exhaustive) and as lens guards over the monitor (what each client was told, promised expiry) on the real plugin's replies",
+   "Every executed sequence contains exact renewals, hint-less repeats, several hints and length-0 hints relative to what the client holds; the replays of the four repaired defects run in every tier.", _PFX_NOTE, "DESIGN.md section 3 C08-C09")
 NOT_YET = {}
 
 def main():
